@@ -76,6 +76,14 @@ def oracle(case, rec, an, streams, mb):
                     if (a in o["inputs"] and b in o["outputs"]) or (b in o["inputs"] and a in o["outputs"]):
                         stats["inplace_pairs"] += 1
                         continue
+                # a CPU RESHAPE / SQUEEZE / EXPAND_DIMS whose result is exactly its operand's buffer is the documented in-place form of these
+                # kernels (the reference kernels copy only when the two data pointers differ)
+                if lo == hi and lo not in ethosu and 0 <= lo < len(sg["ops"]):
+                    o = sg["ops"][lo]
+                    if o["op"] in ("RESHAPE", "SQUEEZE", "EXPAND_DIMS") and offs[a] == offs[b] and size[a] == size[b] and \
+                            ((a in o["inputs"][:1] and b in o["outputs"]) or (b in o["inputs"][:1] and a in o["outputs"])):
+                        stats["inplace_pairs"] += 1
+                        continue
                 viol.append(("arena-overlap|%s|%s" % (sg["tensors"][a]["name"], sg["tensors"][b]["name"]),
                              "tensors %s [%d,%d) live %d..%d and %s [%d,%d) live %d..%d overlap" % (
                                  sg["tensors"][a]["name"], offs[a], offs[a] + size[a], da, la, sg["tensors"][b]["name"], offs[b], offs[b] + size[b], db, lb)))
